@@ -782,8 +782,10 @@ def run_mutate(e, seed, k, how):
     return {"label": e.label, "family": e.family, "outcome": "exact"}
 
 
-def run_stale(e, seed, k):
-    """C09 scenario for every operation: operand k is an intermediate W = 2 * P shared with a second graph; the second graph is
+def run_stale(e, seed, k, inplace=False):
+    """(inplace=True: the shared intermediate is additionally updated in place, W[...] = W + 1, after the other graph's backward() and before
+    the loss's backward(): "whatever happened in between (in-place updates ...)".)
+    C09 scenario for every operation: operand k is an intermediate W = 2 * P shared with a second graph; the second graph is
     back-propagated first (which clears W), then the loss through the operation: InvalidBackprop, or exactly the recorded gradient."""
     from mygrad.errors import InvalidBackprop
     reset_global_state()
@@ -807,6 +809,11 @@ def run_stale(e, seed, k):
     other = (W * 3.0).sum()
     other.backward()
     other_grad = P.grad.copy()
+    if inplace:
+        try:
+            W[...] = W.data + 1.0
+        except Exception as ex:
+            return {"label": e.label, "family": e.family, "outcome": "inplace-refused:" + type(ex).__name__}
     try:
         out.backward(np.asarray(g, dtype=out.dtype))
     except InvalidBackprop:
@@ -861,6 +868,8 @@ def main():
                 out.append(run_const(e, t.get("seed", 0), t.get("variant", 0)))
             elif t["mode"] == "stale":
                 out.append(run_stale(e, t.get("seed", 0), t.get("operand", 0) % len(e.shapes)))
+            elif t["mode"] == "stale_ip":
+                out.append(run_stale(e, t.get("seed", 0), t.get("operand", 0) % len(e.shapes), inplace=True))
             else:
                 out.append(run_alias(e, t.get("seed", 0), t.get("variant", 0)))
         except Exception:
